@@ -63,11 +63,18 @@ package gmtls
 
 // extractPadding (RFC 2246 6.2.3.2, constant time): toRemove = paddingLen + 1; good = 255 exactly when the record
 // is long enough for its padding and every padding byte equals the padding length, otherwise 0.
+// ghost bookkeeping of the two padding checks: how often the SSL 3.0 check (contents not inspected) and the full check
+// ran, and the verdict of the latest full check
+//@ (ghost pad.ssl B64)
+//@ (ghost pad.full B64)
+//@ (ghost pad.good B8)
 //@ (defmacro plen (p) (at p (bvsub (len p) 1)))
 //@ (defmacro padok (p) (and (bvult (zext (plen p) 64) (len p))
 //@      (forall ((j B64)) (=> (bvule j (zext (plen p) 64)) (= (at p (bvsub (bvsub (len p) 1) j)) (plen p))))))
 //@ (func extractPadding
 //@   (requires size (bvslt (len payload) #x0000000001000000))
+//@   (ghost-set pad.full (bvadd (old (ghost pad.full)) 1))
+//@   (ghost-set pad.good good)
 //@   (ensures empty (=> (= (len payload) 0) (and (= toRemove 0) (= good #x00))))
 //@   (ensures remove (=> (bvsgt (len payload) 0) (= toRemove (bvadd (zext (plen payload) 64) 1))))
 //@   (ensures verdict (=> (bvsgt (len payload) 0) (= good (ite (padok payload) #xff #x00))))
@@ -95,15 +102,23 @@ package gmtls
 
 // decrypt: for a block holding at least a record header, whatever bytes the peer sent: no panic; the sequence number
 // advances by exactly one when the record is accepted and stays put (alert bad_record_mac) when it is rejected; a record
-// is accepted only after the constant-time MAC comparison returned equal (MAC suites), and without
+// is accepted only after the constant-time MAC comparison returned equal (MAC suites) and, when the full CBC padding check
+// ran, only if it said good; the relaxed SSL 3.0 padding check runs only for SSL 3.0; and acceptance happens without
 // any failed AEAD Open (ghost state of the library contracts: ctc.last, aead.fails).
+//@ (func extractPaddingSSL30
+//@   (ghost-set pad.ssl (bvadd (old (ghost pad.ssl)) 1))
+//@   (ensures verdict (or (= good #x00) (= good #xff)))
+//@   (ensures remove (and (bvsge toRemove 0) (bvsle toRemove (len payload))
+//@                        (=> (= good #xff) (= toRemove (bvadd (zext (plen payload) 64) 1))))))
 //@ (func "(*halfConn).decrypt" noframe split-returns
 //@   (requires blk (and (not (isnil b)) (bvsge (len (field b data)) 5) (bvsle (len (field b data)) #x0000000000100000)))
 //@   (requires sep (distinct (obj hc) (obj b) (obj (field b data)) (obj (field hc inDigestBuf))))
-//@   (ghost-havoc ctc.last aead.fails)
+//@   (ghost-havoc ctc.last aead.fails pad.ssl pad.full pad.good)
 //@   (ensures accepted (=> ok (= (seq64 hc) (bvadd (old (seq64 hc)) #x0000000000000001))))
 //@   (ensures macchecked (=> (and ok (not (isnil (old (field hc mac))))) (= (ghost ctc.last) 1)))
 //@   (ensures aeadchecked (=> ok (= (ghost aead.fails) (old (ghost aead.fails)))))
+//@   (ensures padkind (=> (not (= (old (field hc version)) #x0300)) (= (ghost pad.ssl) (old (ghost pad.ssl)))))
+//@   (ensures padchecked (=> (and ok (not (isnil (old (field hc mac)))) (not (= (ghost pad.full) (old (ghost pad.full))))) (= (ghost pad.good) #xff)))
 //@   (ensures rejected (=> (not ok) (and (= (seq64 hc) (old (seq64 hc))) (= alertValue #x14)))))
 
 // padToBlockSize: prefix aliases the whole blocks of payload; finalBlock is one fresh block holding the rest and the
